@@ -353,4 +353,42 @@ example := snodeBmod_spec false 13 2 exLsub exXlsub exSt 1 16 179 3 11 (by decid
   (by decide +kernel) (by decide +kernel) (by decide) (by decide) (fun t u ht hu => exLsub_distinct t ht u hu) (by decide +kernel) (by decide +kernel)
   (by decide) (by decide) (by decide +kernel) (by decide +kernel)
 
+/-- **C01/C02 (the mirrored kernels instantiate the "dense solve + gemv" step of the supernodal
+schedule theorem).**  `cols` are the finished columns `fsupc..jcol-1` as the factorization model
+holds them (`(pivot row, column of L)`, e.g. a block of `prev st j` in `luFactor_supernodal_schedule`),
+agreeing with the storage on the rows of the supernode (zero above the pivot, one at the pivot, the
+stored multipliers below).  Then what `snode_bmod` — mirrored `lsolve` + `matvec` + scatter — leaves
+in column `jcol` is exactly the abstract block update `Slu.LU.snodeBlock cols dense`
+(= `elimBlocks [cols] dense` = the column-by-column elimination `elim cols dense`): its U-segment in
+the diagonal-block cells, its remaining vector at the rows below. -/
+theorem snodeBmod_is_supernodal_step (cplx : Bool) (jcol fsupc : Nat) (lsub xlsub : Array Nat) (st : SnodeSt K)
+    (istart nsupr ufirst luptr nsupc : Nat)
+    (e1 : istart = xlsub[fsupc]!) (e2 : nsupr = xlsub[fsupc + 1]! - istart)
+    (e3 : ufirst = st.xlusup[jcol]!) (e4 : luptr = st.xlusup[fsupc]!) (e5 : nsupc = jcol - fsupc)
+    (hle : fsupc ≤ jcol)
+    (hinj : ∀ t u, t < nsupr → u < nsupr → lsub[istart + t]! = lsub[istart + u]! → t = u)
+    (hrow : ∀ t, t < nsupr → lsub[istart + t]! < st.dense.size)
+    (hcol : ufirst + nsupr ≤ st.lusup.size) (hwid : nsupc ≤ nsupr)
+    (hbefore : luptr + nsupc * nsupr ≤ ufirst)
+    (htv : nsupr - nsupc ≤ st.tempv.size) (htz : ∀ i, i < nsupr - nsupc → st.tempv[i]! = 0)
+    (cols : List (Nat × LU.Vec K)) (hlen : cols.length = nsupc)
+    (R1 : ∀ t (ht : t < cols.length), (cols[t]).1 = lsub[istart + t]!)
+    (R2 : ∀ t (ht : t < cols.length) i, i < nsupr → (cols[t]).2.get (lsub[istart + i]!) =
+        if i < t then 0 else if i = t then 1 else st.lusup[luptr + (t * nsupr + i)]!) :
+    LU.snodeBlock cols st.dense = LU.elim cols st.dense ∧
+    LU.elimBlocks [cols] st.dense = LU.elim cols st.dense ∧
+    (∀ t, t < nsupc → (snodeBmod cplx jcol fsupc lsub xlsub st).lusup[ufirst + t]! = (LU.snodeBlock cols st.dense).2.getD t 0) ∧
+    (∀ i, nsupc ≤ i → i < nsupr → (snodeBmod cplx jcol fsupc lsub xlsub st).lusup[ufirst + i]! =
+      (LU.snodeBlock cols st.dense).1.get (lsub[istart + i]!)) := by
+  obtain ⟨hU, hr, c1, c2⟩ := snodeBmod_eq_snodeBlock' cplx jcol fsupc lsub xlsub st istart nsupr ufirst luptr nsupc
+    e1 e2 e3 e4 e5 hle hinj hrow hcol hwid hbefore htv htz cols hlen R1 R2
+  have hb := LU.snodeBlock_eq_elim cols st.dense hU hr
+  have hs := LU.snodeSolve_eq_elim cols st.dense hr
+  refine ⟨hb, ?_, fun t ht => ?_, fun i hi hin => ?_⟩
+  · have := LU.elimBlocks_eq_elim [cols] st.dense (fun b hb' => by simp at hb'; subst hb'; exact hU)
+      (fun b hb' x hx => by simp at hb'; subst hb'; exact hr x hx)
+    simpa using this
+  · rw [c1 t ht, hb, hs]
+  · rw [c2 i hi hin, hb, hs, LU.snodeGemv_eq_elim]
+
 end Slu.MyBlas2
